@@ -199,8 +199,9 @@ def sysOf (w : World) : Sys Node := { rule := ruleOf w }
 def rootExpr (w : World) : Expr Node := .node false (w.req.obj, w.req.rel)
 
 /-- the model of `LocalChecker.ResolveCheck` for one schedule -/
-def check (w : World) (maxDepth : Nat) (sc : Dfs.Sched) (fuel : Nat := 4000) : Dfs.Out :=
-  Dfs.evalF (sysOf w) maxDepth sc fuel 0 [] (rootExpr w)
+def check (w : World) (maxDepth : Nat) (sc : Dfs.Sched) (fuel : Nat := 4000)
+    (cache : Node → Option Bool := Dfs.noCache) : Dfs.Out :=
+  Dfs.evalF (sysOf w) maxDepth sc cache fuel 0 [] (rootExpr w)
 
 /-! ### the reference semantics: the same one-step rules with exact three-valued edges -/
 
